@@ -20,6 +20,17 @@ from lib import core
 FIXTURES = ["test_full_mc_evt_1.rtraw", "test_full_mc_evt_1.dst", "test_full_mc_evt_1.rec", "test_cgem.rtraw", "test_cgem.dst", "test_cgem.rec", "test_mrpc.rtraw"]
 
 
+def canon(x):
+    """nested python lists with NaN made comparable"""
+    if isinstance(x, dict):
+        return {k: canon(v) for k, v in x.items()}
+    if isinstance(x, (list, tuple)):
+        return [canon(v) for v in x]
+    if isinstance(x, float) and x != x:
+        return "nan"
+    return x
+
+
 def lazy_vs_eager(chk: core.Check, thorough: bool):
     import awkward as ak
     import uproot
@@ -66,12 +77,12 @@ def lazy_vs_eager(chk: core.Check, thorough: bool):
                 chk.count(1, key=key)
                 chk.hist("steps_per_file", steps)
                 t_eager, t_comp = str(eager.type), str(comp.type)
-                same_vals = (len(comp) == len(eager)) and ak.to_list(comp) == ak.to_list(eager)
+                same_vals = (len(comp) == len(eager)) and canon(ak.to_list(comp)) == canon(ak.to_list(eager))
                 if t_comp != t_eager or not same_vals or announced != t_eager:
                     what = "type announced before computing" if announced != t_eager and t_comp == t_eager and same_vals else ("type of the computed lazy array" if t_comp != t_eager else "values of the computed lazy array")
                     first_bad = None
                     if not same_vals and len(comp) == len(eager):
-                        lc, le = ak.to_list(comp), ak.to_list(eager)
+                        lc, le = canon(ak.to_list(comp)), canon(ak.to_list(eager))
                         first_bad = next((i for i in range(len(le)) if lc[i] != le[i]), None)
                     chk.failing_input(what, {"file": fn, "branch": name, "steps_per_file": steps, "first_differing_event": first_bad},
                                       {"announced": announced[:300], "computed_type": t_comp[:300], "n": len(comp)}, {"eager_type": t_eager[:300], "n": len(eager)},
@@ -92,7 +103,7 @@ def lazy_vs_eager(chk: core.Check, thorough: bool):
                 with uproot.open(p) as f:
                     eager = f["Event"][members[-1]].array()
                 chk.count(1, key=f"projection-{fn}-{grp}")
-                if str(comp.type) != str(eager.type) or ak.to_list(comp) != ak.to_list(eager):
+                if str(comp.type) != str(eager.type) or canon(ak.to_list(comp)) != canon(ak.to_list(eager)):
                     chk.failing_input("column projection of a lazily read event group", {"file": fn, "group": grp, "columns": members, "projected": pick}, str(comp.type)[:300], str(eager.type)[:300], "every column projection applied before compute() yields the eager column")
                     return
             except NotImplementedError as ex:
